@@ -74,6 +74,9 @@ type Parser struct {
 	chunked      bool
 	isClient     bool
 	headerExists bool
+	// the message declared trailer fields (p.trailer only holds the declared
+	// fields that have not been received yet).
+	trailerDeclared bool
 }
 
 //go:norace
@@ -664,7 +667,7 @@ UPGRADER:
 				if p.headerValue == "" {
 					p.headerValue = string(data[start:i])
 				}
-				if len(p.trailer) == 0 {
+				if len(p.trailer) == 0 && !p.trailerDeclared {
 					return fmt.Errorf("invalid trailer '%v'", p.headerKey)
 				}
 				delete(p.trailer, p.headerKey)
@@ -815,6 +818,7 @@ func (p *Parser) parseTrailer() error {
 	}
 	if len(trailer) > 0 {
 		p.trailer = trailer
+		p.trailerDeclared = true
 	}
 	return nil
 }
@@ -825,6 +829,7 @@ func (p *Parser) handleMessage() {
 	p.chunked = false
 	p.header = nil
 	p.trailer = nil
+	p.trailerDeclared = false
 
 	if !p.isClient {
 		p.nextState(stateMethodBefore)
